@@ -2,6 +2,7 @@
 from __future__ import annotations
 
 import hashlib
+import json
 import os
 import re
 import shutil
@@ -31,7 +32,7 @@ INVALID = {
     "kind_clash": "states(x=1.0)\nparameters(x=2.0)\ndx_dt = -x\n",
     "syntax_error": "states(x=1.0)\ndx_dt = -x * * 2 (\n",
 }
-SCHEME_SETS = [[], ["explicit_euler"], ["generalized_rush_larsen"], ["explicit_euler", "generalized_rush_larsen", "hybrid_rush_larsen"], ["forward_explicit_euler"], ["hybrid_rush_larsen"], ["explicit_euler", "explicit_euler"]]
+SCHEME_SETS = [[], ["explicit_euler"], ["explicit_euler", "forward_explicit_euler"], ["forward_generalized_rush_larsen", "generalized_rush_larsen", "explicit_euler"], ["generalized_rush_larsen"], ["explicit_euler", "generalized_rush_larsen", "hybrid_rush_larsen"], ["forward_explicit_euler"], ["hybrid_rush_larsen"], ["explicit_euler", "explicit_euler"]]
 
 
 def vectors(tier, rng):
@@ -129,7 +130,86 @@ def plan(tier, seed):
     specs = []
     for k, (cmd, model, opts) in enumerate(vs):
         specs.append({"klass": cmd + ("_invalid" if model.startswith(("invalid", "missing")) or opts.get("expect_fail") else ""), "i": k, "cmd": cmd, "model": model, "opts": opts, "prop": ID, "soft_timeout": 300})
+    # the command-line application driven repeatedly from ONE process (build script, notebook, test runner): convert, edit the
+    # model file, convert the same path again, make the file invalid, convert again
+    k = len(specs)
+    for cmd, o in (("ode2py", {"format": "none"}), ("ode2c", {"format": "none"}), ("ode2c", {"format": "none", "to": ".c", "scheme": ["generalized_rush_larsen"]}),
+                   ("ode2py", {"format": "none", "scheme": ["explicit_euler"], "backend": "jax"}), ("convert", {"to": ".py"}), ("convert", {"to": ".h"})):
+        for first, second in (("lorenz", "gates"), ("single", "lorenz")):
+            specs.append({"klass": "edit_and_rerun_in_one_process", "i": k, "cmd": cmd, "model": first, "second": second, "opts": o, "prop": ID, "soft_timeout": 300})
+            k += 1
     return specs
+
+
+RERUN_DRIVER = r"""
+import json, os, sys
+from typer.testing import CliRunner
+from gotranx.cli import app
+job = json.load(open("job.json"))
+runner = CliRunner()
+res = []
+for step in job["steps"]:
+    open(job["model"], "w").write(step["text"])
+    if os.path.exists(job["out"]):
+        os.unlink(job["out"])
+    r = runner.invoke(app, job["args"])
+    res.append({"exit": r.exit_code, "exists": os.path.exists(job["out"]), "text": open(job["out"]).read() if os.path.exists(job["out"]) else None, "exc": repr(r.exception)[:200] if r.exception else None})
+json.dump(res, open("result.json", "w"))
+"""
+
+
+def run_rerun_case(spec, out, cn, scratch):
+    cmd, o = spec["cmd"], dict(spec["opts"])
+    steps = [MODELS[spec["model"]], MODELS[spec["second"]], MODELS[spec["model"]], INVALID["undefined_symbol"], MODELS[spec["second"]]]
+    ex0 = C.call(expected_output, cmd, os.path.join(scratch, "m.ode"), o) if False else None
+    # expectations through the API, each from its own file
+    expect = []
+    for j, t in enumerate(steps):
+        if t is INVALID["undefined_symbol"]:
+            expect.append(None)
+            continue
+        os.makedirs(os.path.join(scratch, f"exp{j}"), exist_ok=True)
+        pth = os.path.join(scratch, f"exp{j}", "m.ode")
+        open(pth, "w").write(t)
+        ex = C.call(expected_output, cmd, pth, o)
+        if not ex.ok:
+            out.update(status="inconclusive", reason="API expectation failed: " + ex.describe()[:200])
+            return out
+        expect.append(ex.value)
+    outname = expect[0][0]
+    argv = argv_for(cmd, "m.ode", o, scratch)[3:]
+    json.dump({"model": "m.ode", "out": outname, "args": argv, "steps": [{"text": t} for t in steps]}, open(os.path.join(scratch, "job.json"), "w"))
+    open(os.path.join(scratch, "driver.py"), "w").write(RERUN_DRIVER)
+    e = env.child_env("0")
+    e.pop("FINSBERG_GOTRANX_VERIF", None)
+    try:
+        p = subprocess.run([PY, "driver.py"], cwd=scratch, env=e, capture_output=True, text=True, timeout=280)
+    except subprocess.TimeoutExpired:
+        out.update(status="inconclusive", reason="driver timed out")
+        return out
+    if p.returncode != 0 or not os.path.exists(os.path.join(scratch, "result.json")):
+        out.update(status="inconclusive", reason="driver failed: " + p.stderr[-300:])
+        return out
+    res = json.load(open(os.path.join(scratch, "result.json")))
+    out["evaluations"] = len(res)
+    for j, (r, ex) in enumerate(zip(res, expect)):
+        d = {"argv": argv, "step": j, "exit": r["exit"], "exc": r["exc"], "sequence": [spec["model"], spec["second"], spec["model"], "invalid", spec["second"]]}
+        if ex is None:
+            if r["exit"] == 0:
+                out["violations"].append({"kind": "exit_zero_on_invalid_input", "subkind": f"{cmd}|rerun", "detail": d})
+            if r["exists"]:
+                out["violations"].append({"kind": "file_written_on_invalid_input", "subkind": f"{cmd}|rerun", "detail": d})
+            continue
+        if r["exit"] != 0:
+            out["violations"].append({"kind": "nonzero_exit_on_valid_request", "subkind": f"{cmd}|rerun", "detail": d})
+        elif not r["exists"]:
+            out["violations"].append({"kind": "output_file_missing_or_elsewhere", "subkind": f"{cmd}|rerun", "detail": d})
+        elif r["text"] != ex[1]:
+            stale = [q for q in range(j) if expect[q] is not None and expect[q][1] == r["text"]]
+            out["violations"].append({"kind": "bytes_differ_from_api", "subkind": f"{cmd}|rerun", "detail": dict(d, output_equals_api_for_earlier_step=stale[:1])})
+    out["nontrivial"] = len(res) == len(steps)
+    cn["rerun_steps"] = len(res)
+    return finish(out, spec)
 
 
 def argv_for(cmd, fname, o, scratch):
@@ -256,6 +336,8 @@ def run_case(spec, ctx):
     scratch = tempfile.mkdtemp(prefix="c18-", dir=os.environ.get("VERIF_WORK"))
     out["hash"] = hashlib.sha256(repr((cmd, model, sorted(o.items(), key=str))).encode()).hexdigest()[:16]
     try:
+        if spec["klass"] == "edit_and_rerun_in_one_process":
+            return run_rerun_case(spec, out, cn, scratch)
         invalid = model.startswith("invalid:") or model == "missing_file" or o.get("expect_fail")
         if model.endswith(".cellml"):
             fname = model
@@ -340,6 +422,14 @@ def run_case(spec, ctx):
             out["violations"].append({"kind": "output_file_missing_or_elsewhere", "subkind": f"{cmd}|{_optkey(o)}", "detail": dict(detail0, expected_path=exp_path)})
         else:
             got = open(got_path).read()
+            # independent of the API expectation: every scheme named in the request is defined under that name (a name repeated in the request is emitted once per mention, as the API does)
+            eff = (o.get("config") or {}).get("scheme", o.get("scheme", []))
+            for sname in dict.fromkeys(eff):
+                n_def = len(re.findall(r"^(?:def|void)\s+" + re.escape(sname) + r"\s*\(", got, flags=re.M))
+                if n_def < 1:
+                    out["violations"].append({"kind": "requested_scheme_not_defined", "subkind": f"{cmd}|{sname}", "detail": dict(detail0, scheme=sname, definitions=n_def, requested=list(eff))})
+                    break
+            cn["scheme_names_checked"] = cn.get("scheme_names_checked", 0) + len(set(eff))
             if got != exp_text:
                 # which option was not honoured?  compare with the API output for the defaults
                 d = dict(detail0, expected_path=exp_path, sha_cli=hashlib.sha256(got.encode()).hexdigest()[:12], sha_api=hashlib.sha256(exp_text.encode()).hexdigest()[:12])
